@@ -22,7 +22,7 @@
    in debug builds and wrap modulo 2^64 in release builds, where truncate(len >= current) is a no-op.
 
    write!(self, ...) reaches `output` once per format piece; for Literal escaping without wrapping
-   `output (a ++ b) = output b . output a` (Proofs/CmProofs.v output_lit_app), so each write! is one
+   `output (a ++ b) = output b . output a` (Proofs/CmWrite.v output_lit_app, write_all_app), so each write! is one
    write_all of the concatenation here.  write_all of an empty buffer does not call write.
 
    No proofs here. *)
